@@ -91,7 +91,7 @@ Definition astep (a0 : ast) (o : op) : option (ast * list call) :=
           else Some (mkA false (ahead a0)
                          (Some (k, b, if w =? 0 then l else l ++ [(x, if k =? 0 then 1 else w)])) (blast a0), [])
       end
-  | OEnd out =>
+  | OEnd out _ =>
       let a' := mkA true (ahead a0) (abody a0) (blast a0) in
       if negb out then Some (a', [])
       else if (hkind a0 =? MIN) && (bkind a0 =? 0) then None
@@ -142,7 +142,7 @@ Fixpoint arun_st (t : tri ast) (ops : list mop) : option (list Z * tri ast) :=
       match astep (getb t i) o with
       | Some (a', calls) =>
           match arun_st (setb t i a') r with
-          | Some (x, t') => Some (0 :: enc_calls calls ++ x, t')
+          | Some (x, t') => Some (ostat o :: enc_calls calls ++ x, t')
           | None => None
           end
       | None => None
@@ -208,6 +208,6 @@ Definition detected (a : ast) (o : op) : bool :=
        | Some (_, l), Some (_, _, bl) => negb (blast a) && (negb (Nat.eqb (length l) 0) || negb (Nat.eqb (length bl) 0))
        | _, _ => false
        end)
-  | OEnd out => out && (hkind a =? MIN) && (bkind a =? 0)
+  | OEnd out _ => out && (hkind a =? MIN) && (bkind a =? 0)
   | _ => false
   end.
